@@ -59,6 +59,7 @@ Proof.
   - destruct (e_ret (ent s c)) eqn:ER; try discriminate.
     destruct (e_comp (ent s c)) eqn:EC; try discriminate. inv_some. simpl. rewrite <- EC. apply upd_etrans. now constructor.
   - inv_some. now left.
+  - inv_some. now left.
 Qed.
 
 Lemma etrans_ret_stable : forall e e' r, etrans e e' -> e_ret e = Some r -> e_ret e' = Some r.
